@@ -1,5 +1,5 @@
 (* C19 — going idle triggers clean-up; end-of-day never runs over open transactions.  Statements only. *)
-From Zvt Require Import Base Length Cp437 Encoding Codec Lookup Client ClientProps.
+From Zvt Require Import Base Length Cp437 Encoding Codec Lookup Client ClientProps ClientWire.
 Open Scope N_scope.
 
 (* while other transactions are still open a completed cancel requests nothing more: the world after
@@ -63,7 +63,16 @@ Proof. exact cleanup_reversal_then_end_of_day. Qed.
 Theorem C19_pending_reports_receipt : forall ixa v r, field_of "zvt::packets::PartialReversalAbort" v 135 = Some (VSome (VInt r)) ->
   fst (h_pending ixa tt ixa v) = Some (if r =? 65535 then ROk [] else ROk [r]).
 Proof. exact pending_reports_receipt. Qed.
+(* down to the wire, for every state, world and time: the chain's first act on the connection in use is the query for a
+   dangling pre-authorisation — a request the partial-reversal layout reads back as the marker FFFF and nothing else *)
+Theorem C19_chain_first_asks_for_pending : forall cfg st w id, w_cur w = Some id ->
+  exists req : list N, req <> nil /\
+    first_new_event w (snd (end_of_day cfg st w)) (EWrite id (w_now w) req) /\
+    forall r, dec_cmd FUEL (cmd_of "zvt::packets::PartialReversal") (req ++ r) = Ok (pending_query_value, r).
+Proof. exact end_of_day_first_asks_for_pending. Qed.
+
 Print Assumptions C19_pending_reports_receipt.
+Print Assumptions C19_chain_first_asks_for_pending.
 Print Assumptions C19_commit_busy_no_end_of_day.
 Print Assumptions C19_commit_idle_runs_cleanup.
 Print Assumptions C19_chain_stops_when_query_fails.
